@@ -464,6 +464,36 @@ theorem C20_dispatch (p : Proc) (te : List (Nat × Nat)) (pl : Payload) (rc : Bo
 theorem C20_restore (p : Proc) (te : List (Nat × Nat)) (pl : Payload) : (dispatchPy true p te pl).2 = p := by
   unfold dispatchPy; simp
 
+/-- **C20 (a request that never ran is not a success)**: with the exit code the code sets for the path on which the
+    rank process's try block raised (`Gen.rankRaisedExit`), the master files a request under DONE only if its
+    dispatcher returned a tuple with exit code 0 - so, with `C20_dispatch`, only if the call returned; a request
+    whose sandbox, dispatcher lookup or dispatcher raised is FAILED and carries the exception -/
+theorem C20_unrun_request_fails (d : Except Nat Report) :
+    (targetState (some (rankResult Gen.rankRaisedExit d).1) = "DONE" → ∃ r, d = .ok r ∧ r.ret = 0)
+    ∧ (∀ e, d = .error e → targetState (some (rankResult Gen.rankRaisedExit d).1) = "FAILED"
+                           ∧ (rankResult Gen.rankRaisedExit d).2.2 = some e) := by
+  have hx : Gen.rankRaisedExit ≠ 0 := by decide
+  constructor
+  · intro h
+    cases d with
+    | ok r =>
+        refine ⟨r, rfl, ?_⟩
+        have := (C20_target (some ((r.ret : Nat) : Int))).1.mp h
+        simpa using this
+    | error e =>
+        exact absurd ((C20_target (some Gen.rankRaisedExit)).1.mp h) (by simpa using hx)
+  · intro e he
+    subst he
+    refine ⟨?_, rfl⟩
+    have := (C20_target (some Gen.rankRaisedExit)).2
+    apply this
+    intro h
+    exact absurd ((C20_target (some Gen.rankRaisedExit)).1.mp h) (by simpa using hx)
+
+/-- the exit code matters: were the raised path reported with 0, a request that never ran would be DONE -/
+theorem C20_unrun_witness : targetState (some (rankResult 0 (.error 3)).1) = "DONE"
+    ∧ targetState (some (rankResult 1 (.error 3)).1) = "FAILED" := by decide
+
 /-- a request that is refused before it runs fails and leaves the worker's environment and streams alone -/
 theorem C20_unresolved (p : Proc) : (dispatchUnresolved p).2 = p ∧ (dispatchUnresolved p).1.ret ≠ 0 := by
   constructor <;> simp [dispatchUnresolved]
